@@ -13,6 +13,7 @@ classify the outcome.
   //@before <snippet> / //@after <snippet>              following lines go before/after the (unique) body line containing <snippet>
   //@before #<k>/<n> <snippet>                          ... the k-th of exactly n body lines containing <snippet>
   //@body-start                                         following lines go right after the opening brace of the body
+  //@body-end                                           following lines go before the body's tail expression (or its closing brace)
   //@end
   //@include <unit>                                     paste the verus! body of units/<unit>.vspec here (re-extracted, re-verified)
 
@@ -102,6 +103,7 @@ class Extract:
         self.before = []        # (snippet, [lines])
         self.after = []
         self.body_start = []
+        self.body_end = []      # before the tail expression (or before the closing brace when the body ends with a statement)
         self.noname = False
         self.derive = ('Clone', 'Copy', 'PartialEq', 'Eq')
 
@@ -201,6 +203,8 @@ def parse_vspec(path):
                 ex.after.append((d[len('after '):].strip(), sink))
             elif d == 'body-start':
                 sink = ex.body_start
+            elif d == 'body-end':
+                sink = ex.body_end
             else:
                 raise SystemExit(f"{path}:{ln}: unknown directive {s}")
         else:
@@ -257,9 +261,6 @@ def render_extract(ex, report, vacuity=False):
         keep = []
         for m in re.finditer(r'#\[derive\(([^)]*)\)\]', attrs, flags=re.S):
             keep += [t.strip() for t in m.group(1).split(',') if t.strip() in ex.derive]
-        if keep:
-            text = '#[derive(' + ', '.join(keep) + ')] ' + text
-            rep['rewrites']['R0 derive-filter'] = 1
         if ex.kind == 'struct' and it.body_open is not None:
             # R8: widen field visibility (irrelevant to verification; Verus forbids private fields in public contracts)
             text, k = re.subn(r'(?m)^(\s*)(?!pub\b)([a-z_][A-Za-z0-9_]*\s*:)', r'\1pub \2', text)
@@ -291,6 +292,9 @@ def render_extract(ex, report, vacuity=False):
             if not count_ok(n, k):
                 raise AnchorLost(f"{fid}: rewrite {label} expected {n} hits, got {k}")
             rep['rewrites'][label] = k
+        if keep:
+            text = '#[derive(' + ', '.join(keep) + ')] ' + text
+            rep['rewrites']['R0 derive-filter'] = 1
         return [Line(t, ('repo', ex.relpath, first_line + i)) for i, t in enumerate(text.split('\n'))]
 
     if it.body_open is None:
@@ -363,6 +367,22 @@ def render_extract(ex, report, vacuity=False):
     for (snip, lines) in ex.after:
         inserts_after.setdefault(anchor(snip), []).extend(lines)
 
+    if ex.body_end:
+        # last non-blank line strictly inside the body braces
+        last = len(mlines) - 1
+        if mlines[last].strip() in ('}', ''):
+            last -= 1
+        while last > 0 and not mlines[last].strip():
+            last -= 1
+        t = mlines[last].rstrip()
+        if t.endswith(';') or t.endswith('}'):
+            inserts_after.setdefault(last, []).extend(ex.body_end)
+        else:
+            # single-line tail expression
+            opens = sum(t.count(c) for c in '([{') - sum(t.count(c) for c in ')]}')
+            if opens != 0:
+                raise AnchorLost(f"{fid}: body-end: tail expression spans several lines")
+            inserts_before.setdefault(last, []).extend(ex.body_end)
     out = []
     for i, t in enumerate(sig.split('\n')):
         out.append(Line(t, ('repo', ex.relpath, first_line + i)))
